@@ -18,6 +18,30 @@ CHECKS = {
         text="The real pipeline (lex..link, exactly as main.rs) is run on hostile inputs in isolated workers with debug assertions and overflow checks on; a monitor classifies every exit state (ok / diagnostics / panic / LLVM abort / signal / stack overflow / silent failure / hang).",
         note="Inputs <= 64 KiB, nesting <= 256; hang = bounded form (30 s, retried alone 120 s); 8 MiB stack; known crash sites are listed by exact signature in known_findings.json.",
         design="5 C02"),
+    "C03": dict(
+        category="exploration",
+        technique="runtime monitor: LLVM's own assembler and verifier as independent judges over the IR text of every accepted compilation, plus a define/linkage reader",
+        text="Every accepted compilation (generated programs, corpus, accepted mutants, import closures in every rotation, wasm variants, programs without main) has each module text and the linked text pushed through llvm-as-14 and opt-14 -passes=verify; defines are matched against the resolved declarations and main/pub must be externally visible.",
+        note="Judges: LLVM 14 tools (the linked LLVM version). Unreferenced private functions may be dropped by the linker (unobservable); a source-defined function left as a bare declaration is a violation.",
+        design="5 C03"),
+    "C04": dict(
+        category="exploration",
+        technique="runtime monitor: exhaustive small-scope enumeration of function bodies compared with an independent label-scope model; accepted bodies executed",
+        text="All bodies with <= 4 (quick) / <= 6 (thorough) statement nodes over labels, gotos, conditional gotos, assignments and nested blocks, plus random bodies with if/else blocks, are compiled; verdict and the set {E400,E420} must equal the model's, and accepted bodies must take the path their gotos prescribe (exit status encodes the path).",
+        note="Model written from docs/features.md and the property text; code sets are compared, multiplicities only recorded.",
+        design="5 C04"),
+    "C05": dict(
+        category="exploration",
+        technique="runtime monitor: exhaustive small-scope enumeration compared with a lexical rule table and an independent path-based definite-declaration analysis; accepted bodies executed",
+        text="All C04-legal bodies with <= 4 / <= 5 statement nodes over declarations, uses, labels, (conditional) gotos and blocks, with parameters/constants of the same names, plus random bodies: an accepted program must have no CFG path reaching a use without its declaration, E402/E422/E482 must follow the documented rules, and accepted programs must compute what the reference interpreter computes.",
+        note="After the first diagnostic on an identifier the compiler poisons it, so only the textually first violation per name is required; for gotos no path reaches, E482 is optional.",
+        design="5 C05"),
+    "C06": dict(
+        category="exploration",
+        technique="runtime monitor: exhaustive small-scope enumeration of statement trees compared with a placement model (codes and L1800 count); accepted bodies executed",
+        text="All statement lists with <= 4 / <= 6 nodes over blocks, if/else/else-if with every branch form (goto, braced, naked statement, naked loop, naked if), loop, goto, assignment, label are compiled; the code set {E800,E801,E840} and the number of L1800 lints must equal the model's.",
+        note="What a naked (E840) branch contains is not judged separately (the statement is poisoned as a whole).",
+        design="5 C06"),
 }
 
 
